@@ -9,9 +9,17 @@
 (* the same on-disk count).  The watermark is the length of the longest    *)
 (* prefix of events whose count reaches the quorum; the only events any    *)
 (* read API may reveal are those at a sequence below it.                   *)
+(*                                                                         *)
+(* The stream index is per bucket, the watermark per partition.  A stream  *)
+(* read is addressed to a partition; a sibling partition of the same       *)
+(* bucket (with its own, possibly higher, watermark WSib) knows the stream *)
+(* id through the shared index, but the stream does not live there:        *)
+(* addressed to the sibling, a stream read reveals nothing of this         *)
+(* partition (VisibleViaSibling).  SiblingReadsIsolated = FALSE is the     *)
+(* deviation in which such a read is gated by the sibling's watermark.     *)
 (***************************************************************************)
 EXTENDS Naturals, Sequences, FiniteSets, TLC, Json
-CONSTANTS MaxTx, RF
+CONSTANTS MaxTx, RF, SiblingReadsIsolated
 
 Quorum == (RF \div 2) + 1
 Counts == {0, Quorum - 1, Quorum, RF}      \* below / at / above the quorum
@@ -34,6 +42,12 @@ W == Lqp(1)                                    \* the watermark (number of confi
 Visible == {i - 1 : i \in 1..W}                \* partition sequences that may be revealed
 VerOf(i) == Cardinality({j \in 1..i : Events[j].s = Events[i].s}) - 1
 VisibleVers(s) == {VerOf(i) : i \in {j \in 1..W : Events[j].s = s}}
+
+\* a fully confirmed sibling partition, longer than this one
+WSib == N + 2
+\* what a stream read addressed to the sibling reveals of this partition's sequences
+VisibleViaSibling == IF SiblingReadsIsolated THEN {} ELSE {i - 1 : i \in 1..(IF WSib < N THEN WSib ELSE N)}
+SiblingRevealsNothingUnconfirmed == VisibleViaSibling \subseteq Visible
 
 (* C07 as properties of the gate itself *)
 \* the visible set is a prefix and stops at the first event below the quorum
